@@ -99,7 +99,7 @@ class SliceInstruction(MichelsonInstruction, prim='SLICE'):
         if 0 <= start < len(s) and stop <= len(s):
             res = OptionType.from_some(s[start:stop])
         else:
-            res = OptionType.none(type(s))
+            res = OptionType.none(s.get_anon_type())
         stack.push(res)
         stdout.append(format_stdout(cls.prim, [offset, length, s], [res]))  # type: ignore
         return cls(stack_items_added=1)
